@@ -43,6 +43,8 @@ func c04(c *Ctx) {
 	c04engine(c)
 	c04serverDeadline(c)
 	c04finalStatus(c)
+	// R8 (round 8)
+	chainContains(c, "C04.R8", "Timeout", "TimeoutHandler", "the timeout middleware")
 }
 
 func c04rest(c *Ctx) {
